@@ -5,7 +5,7 @@
    reference parser) and compared on the environment grid by the oracle, and the model computes the same structures
    (byte-identical text required). *)
 From Coq Require Import List Bool NArith String.
-From PC Require Import Base.Result Model.Generic Model.Marker Model.MarkerAlg Proofs.MarkerProofs Proofs.MarkerAlgProofs.
+From PC Require Import Base.Result Model.Generic Model.Marker Model.MarkerAlg Proofs.MarkerProofs Proofs.MarkerAlgProofs Proofs.StringClass.
 Import ListNotations.
 
 (* evaluation depends on the Boolean structure only *)
@@ -40,3 +40,9 @@ Print Assumptions C13_of_partial.
 Theorem C13_class_exists : forall E, clause_class E demo_R.
 Proof. exact demo_class. Qed.
 Print Assumptions C13_class_exists.
+
+(* no premise left on markers over '==' / '!=' comparisons of string variables with plain values (see C07) *)
+Theorem C13_normal_forms_string_markers : forall E fuel st m, G (SR E) m ->
+  (forall r, cnf fuel st m = Ok r -> beval E r = beval E m /\ G (SR E) r) /\ (forall r, dnf fuel st m = Ok r -> beval E r = beval E m /\ G (SR E) r).
+Proof. exact string_normal_forms. Qed.
+Print Assumptions C13_normal_forms_string_markers.
